@@ -83,48 +83,74 @@ where
 }
 
 impl Inflection {
-    pub fn apply(self, string: &str) -> String {
+    /// Applies the inflection to the name of a struct field the way `serde` does, i.e. under the
+    /// assumption that the field is written in `snake_case`.
+    pub fn apply_to_field(self, field: &str) -> String {
         match self {
-            Inflection::Lower => string.to_lowercase(),
-            Inflection::Upper => string.to_uppercase(),
-            Inflection::Camel => {
-                let pascal = Inflection::apply(Inflection::Pascal, string);
-                pascal[..1].to_ascii_lowercase() + &pascal[1..]
-            }
-            Inflection::Snake => {
-                let mut s = String::new();
-
-                for (i, ch) in string.char_indices() {
-                    if ch.is_uppercase() && i != 0 {
-                        s.push('_');
-                    }
-                    s.push(ch.to_ascii_lowercase());
-                }
-
-                s
-            }
+            Inflection::Lower | Inflection::Snake => field.to_owned(),
+            Inflection::Upper | Inflection::ScreamingSnake => field.to_ascii_uppercase(),
             Inflection::Pascal => {
-                let mut s = String::with_capacity(string.len());
-
+                let mut pascal = String::with_capacity(field.len());
                 let mut capitalize = true;
-                for c in string.chars() {
-                    if c == '_' {
+                for ch in field.chars() {
+                    if ch == '_' {
                         capitalize = true;
-                        continue;
                     } else if capitalize {
-                        s.push(c.to_ascii_uppercase());
+                        pascal.push(ch.to_ascii_uppercase());
                         capitalize = false;
                     } else {
-                        s.push(c)
+                        pascal.push(ch);
                     }
                 }
-
-                s
+                pascal
             }
-            Inflection::ScreamingSnake => Self::Snake.apply(string).to_ascii_uppercase(),
-            Inflection::Kebab => Self::Snake.apply(string).replace('_', "-"),
-            Inflection::ScreamingKebab => Self::Kebab.apply(string).to_ascii_uppercase(),
+            Inflection::Camel => lowercase_first_char(&Self::Pascal.apply_to_field(field)),
+            Inflection::Kebab => field.replace('_', "-"),
+            Inflection::ScreamingKebab => Self::ScreamingSnake
+                .apply_to_field(field)
+                .replace('_', "-"),
         }
+    }
+
+    /// Applies the inflection to the name of an enum variant the way `serde` does, i.e. under
+    /// the assumption that the variant is written in `PascalCase`.
+    pub fn apply_to_variant(self, variant: &str) -> String {
+        match self {
+            Inflection::Pascal => variant.to_owned(),
+            Inflection::Lower => variant.to_ascii_lowercase(),
+            Inflection::Upper => variant.to_ascii_uppercase(),
+            Inflection::Camel => lowercase_first_char(variant),
+            Inflection::Snake => {
+                let mut snake = String::new();
+                for (i, ch) in variant.char_indices() {
+                    if i > 0 && ch.is_uppercase() {
+                        snake.push('_');
+                    }
+                    snake.push(ch.to_ascii_lowercase());
+                }
+                snake
+            }
+            Inflection::ScreamingSnake => Self::Snake.apply_to_variant(variant).to_ascii_uppercase(),
+            Inflection::Kebab => Self::Snake.apply_to_variant(variant).replace('_', "-"),
+            Inflection::ScreamingKebab => Self::ScreamingSnake
+                .apply_to_variant(variant)
+                .replace('_', "-"),
+        }
+    }
+}
+
+// Lowercases the first character (ASCII only, like `serde`), without slicing the string at a
+// byte offset: the name may be empty or start with a multi-byte character.
+fn lowercase_first_char(s: &str) -> String {
+    let mut chars = s.chars();
+    match chars.next() {
+        Some(first) => {
+            let mut out = String::with_capacity(s.len());
+            out.push(first.to_ascii_lowercase());
+            out.push_str(chars.as_str());
+            out
+        }
+        None => String::new(),
     }
 }
 
